@@ -33,6 +33,22 @@ func TestC03(t *testing.T) {
 		}
 		mu.Unlock()
 	}
+	defer func() {
+		r.Count("implementation_selfcheck_logs", int(bugLogs.Load()))
+		if n := bugLogs.Load(); n > 0 && !r.Replaying() {
+			r.Violation("selfcheck:implementation-logged-over-release", "global", "the resource manager logged that more was released than had been charged (it then clamps the counter at zero)", map[string]any{"count": n, "first": bugLogFirst})
+		}
+	}()
+	nc := r.Pick(50, 2000)
+	if race {
+		nc = r.Pick(12, 150)
+	}
+	run.Parallel(nc, 2, func(i int) {
+		if r.TooMany() {
+			return
+		}
+		runConcCase(r, i, race, merge)
+	})
 	if !race {
 		n := r.Pick(2000, 100000)
 		run.Parallel(n, 0, func(i int) {
